@@ -4,9 +4,9 @@ package main
 
 import (
 	"bytes"
-	"os"
 	"fmt"
 	"math/rand"
+	"os"
 	"sort"
 	"strings"
 	"time"
@@ -362,10 +362,10 @@ func run(c *harness.Ctx) {
 
 func main() {
 	harness.Main(&harness.Spec{
-		Property: "C19",
-		Level:    "exploration",
-		Rule:     "random configuration trees (depth<=5, each of 6 variables present/absent at every level, loaded through viper.Set, generated YAML, VOUCH_* environment variables (as main.go configures viper) or a per-setting mixture incl. defaults) x lookup paths inside/below/beside the tree; a case is (variable, presence mask along the lookup chain, depth of the answering level, load mode); non-trivial = path has >=1 component and some level on the chain has a value",
-		Run:      run,
+		Property:    "C19",
+		Level:       "exploration",
+		Rule:        "random configuration trees (depth<=5, each of 6 variables present/absent at every level, loaded through viper.Set, generated YAML, VOUCH_* environment variables (as main.go configures viper) or a per-setting mixture incl. defaults) x lookup paths inside/below/beside the tree; a case is (variable, presence mask along the lookup chain, depth of the answering level, load mode); non-trivial = path has >=1 component and some level on the chain has a value",
+		Run:         run,
 		MinDistinct: 50,
 		Assumptions: []string{"values avoid the encodings that mean 'unset' (zero duration, empty string, empty list)", "the global viper instance is used from one goroutine"},
 	})
